@@ -584,3 +584,59 @@ func (m *Machine) stringsMap(fr *frame, f Value, s Str) Str {
 }
 
 var _ = unicode.MaxRune
+
+// canonStr renders a value as a string that is an injective function of its contents
+// (strings with symbolic bytes stay symbolic): the stand-in for protobuf's text form, whose
+// exact bytes are unspecified by design and only ever serve as a label or a key.
+func (m *Machine) canonStr(v Value, depth int) Str {
+	if depth > 40 {
+		unsupportedf("canonical rendering: nesting too deep")
+	}
+	switch x := v.(type) {
+	case nil:
+		return MkStr("nil")
+	case *Term:
+		if !x.IsConst() {
+			if x.w == 0 {
+				if m.branch(x) {
+					return MkStr("true")
+				}
+				return MkStr("false")
+			}
+			return StrConcat(MkStr("#"), m.decimal(x, false))
+		}
+		return MkStr(fmt.Sprint("#", x.val))
+	case Str:
+		return StrConcat(StrConcat(MkStr(fmt.Sprintf("s%d:", x.Len())), x), MkStr(";"))
+	case *Value:
+		if x == nil {
+			return MkStr("nil")
+		}
+		return StrConcat(MkStr("&"), m.canonStr(*x, depth+1))
+	case Struct:
+		out := MkStr("{")
+		for _, f := range x {
+			out = StrConcat(StrConcat(out, m.canonStr(f, depth+1)), MkStr(","))
+		}
+		return StrConcat(out, MkStr("}"))
+	case Array:
+		out := MkStr("[")
+		for _, f := range x {
+			out = StrConcat(StrConcat(out, m.canonStr(f, depth+1)), MkStr(","))
+		}
+		return StrConcat(out, MkStr("]"))
+	case Slice:
+		out := MkStr(fmt.Sprintf("[%d:", x.len))
+		for i := 0; i < x.len; i++ {
+			out = StrConcat(StrConcat(out, m.canonStr(*x.At(i), depth+1)), MkStr(","))
+		}
+		return StrConcat(out, MkStr("]"))
+	case Iface:
+		if x.t == nil {
+			return MkStr("nil")
+		}
+		return StrConcat(MkStr("("+x.t.String()+")"), m.canonStr(x.v, depth+1))
+	}
+	unsupportedf("canonical rendering of %T", v)
+	return Str{}
+}
